@@ -2476,6 +2476,8 @@ def builtin(it, name, args, kw, n):
             return v.cls
         if isinstance(v, K):
             return Builtin(type(v.v).__name__)
+        if isinstance(v, ListV) and getattr(v, 'nt', None) is not None:
+            return getattr(v.nt, 'cls', None) or v.nt
         if isinstance(v, ListV):
             return Builtin('tuple' if v.tup else 'list')
         if isinstance(v, DictV):
@@ -2622,9 +2624,13 @@ def _isinst1(it, v, ty):
             return r
     if isinstance(v, ExcV) and isinstance(ty, (ClassRef, Builtin)):
         return it.exc_matches(v.kind, [ty.name], v)
+    if isinstance(ty, NamedTupleClass):
+        return isinstance(v, ListV) and getattr(v, 'nt', None) is ty if not isinstance(v, (Sym, Term)) else None
     if isinstance(ty, ClassRef):
         if isinstance(v, Inst):
             return v.cls is not None and it.prog.is_subclass(v.cls, ty.name)
+        if isinstance(v, ListV) and getattr(getattr(v, 'nt', None), 'cls', None) is not None:
+            return it.prog.is_subclass(v.nt.cls, ty.name)       # an instance of a typing.NamedTuple class
         if isinstance(v, (K, PInt, PBits, ListV, DictV, SetV, BA, ExcV)):
             return False
         if isinstance(v, Sym) and v.meta.get('ty') in ('bytes', 'str', 'int', 'bool', 'bits'):
